@@ -803,6 +803,11 @@ def execute_case(case, collect_samples=False):
     for name, spec in case['tables'].items():
         if len(spec['rows']) <= 1 and rep['lib_calls']:
             rep['tags'].add('C15')
+    kinds = Counter(e[3] for e in ENV.events)
+    for k in ('yield_to', 'tokenize', 'sim_fn', 'set_flag', 'dispatch',
+              'task_begin'):
+        if kinds.get(k):
+            rep['stats']['events:' + k] += kinds[k]
     rep['trace_digest'] = ENV.digest()
     rep['events'] = len(ENV.events)
     return rep
@@ -986,6 +991,13 @@ def run_history_op(case, world, idx, op, results, rep, cpus):
         for fo in out.fanouts:
             rep['sigs'].add((comp, fo['tasks'], fo['mode'],
                              tuple(fo['dispatch']), tuple(fo['complete'])))
+            rep['stats']['fanout_mode:' + fo['mode']] += 1
+            if fo['mode'] == 'process' and (op.get('plan') or {}).get(
+                    'reuse_workers', True):
+                rep['stats']['fanout_process_persistent_workers'] += 1
+            if fo['mode'] == 'threads' and (op.get('plan') or {}).get(
+                    'line_p'):
+                rep['stats']['fanout_threads_line_level_preemption'] += 1
         if ej >= 2:
             rep['stats']['calls_with_fanout'] += 1
     if out.ok and faulted and (out.res is not None or kind == 'filter_pair'):
